@@ -66,14 +66,17 @@ func selects() {
 	default:
 		n = 100
 	}
+	// only the receive is ready: a holds a value, b is full
 	a <- 5
+	b <- 2
 	select {
 	case v := <-a:
 		n += v
 	case b <- 1:
 		n += 1000
 	}
-	// a empty again, b empty: send case must be taken
+	<-b
+	// only the send is ready: a is empty, b has room
 	select {
 	case v := <-a:
 		n += v * 7
